@@ -97,7 +97,7 @@ Definition lines_elf (p : profile) (m : mem) (t : tref) : list string :=
   line "elf" (fields KElfSections m t ["number_of_sections"; "entry_size"; "shndx"]
               ++ " sections=" ++ sRes (fun i => "rem=" ++ sN (el_rem i)) it)
   :: match it with
-     | Val i => elf_run (S (S (N.to_nat (el_rem i)))) p m i
+     | Val i => elf_run (S (elf_fuel i)) p m i
      | _ => []
      end.
 
